@@ -596,6 +596,106 @@ func (s *sim) checkAccessors(box *stateBox, where string) {
 			return sl.AddSlashing(common.Epoch(s.frng.Intn(len(rawSl))), 1_000_000_000)
 		}},
 	}
+	// fork-specific accessors (altair+ / capella+)
+	if sc, ok := st.(common.SyncCommitteeBeaconState); ok {
+		rawCur := fieldOf(raw, "CurrentSyncCommittee").(common.SyncCommittee)
+		rawNext := fieldOf(raw, "NextSyncCommittee").(common.SyncCommittee)
+		flat := func(v *common.SyncCommitteeView, err error) []common.BLSPubkey {
+			if err != nil || v == nil {
+				return nil
+			}
+			pv, err := v.Pubkeys()
+			if err != nil {
+				return nil
+			}
+			out, _ := pv.Flatten()
+			return out
+		}
+		if got := flat(sc.CurrentSyncCommittee()); !reflect.DeepEqual(got, []common.BLSPubkey(rawCur.Pubkeys)) {
+			bad("CurrentSyncCommittee", len(got), len(rawCur.Pubkeys))
+			return
+		}
+		if got := flat(sc.NextSyncCommittee()); !reflect.DeepEqual(got, []common.BLSPubkey(rawNext.Pubkeys)) {
+			bad("NextSyncCommittee", len(got), len(rawNext.Pubkeys))
+			return
+		}
+		// rotation on a copy with a fresh committee C: (cur, next) -> (next, C)
+		mk := func(tag byte) common.SyncCommittee {
+			c := common.SyncCommittee{Pubkeys: make([]common.BLSPubkey, len(rawCur.Pubkeys))}
+			for i := range c.Pubkeys {
+				c.Pubkeys[i] = rawCur.Pubkeys[(i+1)%len(rawCur.Pubkeys)]
+				c.Pubkeys[i][47] ^= tag
+			}
+			c.AggregatePubkey[0] = tag
+			return c
+		}
+		cp, err := st.CopyState()
+		if err == nil {
+			csc := cp.(common.SyncCommitteeBeaconState)
+			a, b, c := mk(1), mk(2), mk(3)
+			av, _ := a.View(s.w.spec)
+			bv, _ := b.View(s.w.spec)
+			cv, _ := c.View(s.w.spec)
+			e1 := csc.SetCurrentSyncCommittee(av)
+			e2 := csc.SetNextSyncCommittee(bv)
+			var e3 error
+			if p := guard(func() { e3 = csc.RotateSyncCommittee(cv) }); p != nil {
+				s.viol("C15", "setter-panic/RotateSyncCommittee/"+p.frame, p.val)
+				return
+			}
+			if e1 != nil || e2 != nil || e3 != nil {
+				s.viol("C15", "setter-error/SyncCommittee", fmt.Sprintf("%s (%s): %v %v %v", where, forkName(st), e1, e2, e3))
+				return
+			}
+			r2 := s.rawOf(cp)
+			gc := fieldOf(r2, "CurrentSyncCommittee").(common.SyncCommittee)
+			gn := fieldOf(r2, "NextSyncCommittee").(common.SyncCommittee)
+			if !reflect.DeepEqual(gc.Pubkeys, b.Pubkeys) || gc.AggregatePubkey != b.AggregatePubkey || !reflect.DeepEqual(gn.Pubkeys, c.Pubkeys) || gn.AggregatePubkey != c.AggregatePubkey {
+				s.viol("C15", "setter/RotateSyncCommittee", fmt.Sprintf("%s (%s): after Set(current=A), Set(next=B), Rotate(C) the state holds current=%x.. next=%x.. (expected B=%x.. and C=%x..)", where, forkName(st), gc.AggregatePubkey[:1], gn.AggregatePubkey[:1], b.AggregatePubkey[:1], c.AggregatePubkey[:1]))
+				return
+			}
+			if ch := changedFields(raw, r2); len(ch) != 2 {
+				s.viol("C15", "setter-touches-other-fields/SyncCommittee", fmt.Sprintf("%s (%s): sync committee setters changed %v", where, forkName(st), ch))
+				return
+			}
+			s.res.Stat("setter_checks", 1)
+		}
+	}
+	type wcur interface {
+		NextWithdrawalIndex() (common.WithdrawalIndex, error)
+		NextWithdrawalValidatorIndex() (common.ValidatorIndex, error)
+		SetNextWithdrawalIndex(common.WithdrawalIndex) error
+		SetNextWithdrawalValidatorIndex(common.ValidatorIndex) error
+		IncrementNextWithdrawalIndex() error
+	}
+	if wc, ok := st.(wcur); ok {
+		if v, _ := wc.NextWithdrawalIndex(); !reflect.DeepEqual(v, fieldOf(raw, "NextWithdrawalIndex")) {
+			bad("NextWithdrawalIndex", v, fieldOf(raw, "NextWithdrawalIndex"))
+			return
+		}
+		if v, _ := wc.NextWithdrawalValidatorIndex(); !reflect.DeepEqual(v, fieldOf(raw, "NextWithdrawalValidatorIndex")) {
+			bad("NextWithdrawalValidatorIndex", v, fieldOf(raw, "NextWithdrawalValidatorIndex"))
+			return
+		}
+		cp, err := st.CopyState()
+		if err == nil {
+			cw := cp.(wcur)
+			cur, _ := wc.NextWithdrawalIndex()
+			cw.IncrementNextWithdrawalIndex()
+			r2 := s.rawOf(cp)
+			if ch := changedFields(raw, r2); len(ch) != 1 || ch[0] != "NextWithdrawalIndex" || fieldOf(r2, "NextWithdrawalIndex").(common.WithdrawalIndex) != cur+1 {
+				s.viol("C15", "setter/IncrementNextWithdrawalIndex", fmt.Sprintf("%s (%s): changed %v", where, forkName(st), ch))
+				return
+			}
+			cw.SetNextWithdrawalValidatorIndex(common.ValidatorIndex(pick) + 1000)
+			r3 := s.rawOf(cp)
+			if ch := changedFields(r2, r3); len(ch) != 1 || ch[0] != "NextWithdrawalValidatorIndex" {
+				s.viol("C15", "setter/SetNextWithdrawalValidatorIndex", fmt.Sprintf("%s (%s): changed %v", where, forkName(st), ch))
+				return
+			}
+			s.res.Stat("setter_checks", 2)
+		}
+	}
 	for _, set := range setters {
 		c, err := st.CopyState()
 		if err != nil {
